@@ -12,6 +12,7 @@ Legs (DESIGN.md 6, C20):
 """
 import hashlib
 import json
+import subprocess
 import os
 import re
 import sys
@@ -385,6 +386,28 @@ def run_tie(prop, spec, tier, seed):
         for p in table_ok(table):
             res.failures.append(Failure("proof", "generated obligation Thread.C20_captures_ok is false: " + p,
                                         replay={"obligation": "Thread.C20_captures_ok", "generated_table": table}))
+    # 0. memory-model leg (free-running, real std::thread, ThreadSanitizer): a starter that polls isFinished()/isRunning()
+    #    and then reads what the callable wrote must not race — "isFinished() becomes true only after the callable returned"
+    tsan_bin, tsan_out = lib.build_harness("thr_tsan", ["harness/thread/thread_tsan.cpp"], repo_sources=REPO_SRC,
+                                           flags=["-std=c++20", "-O1", "-g", "-fsanitize=thread"])
+    if tsan_bin is None:
+        res.failures.append(Failure("infra", "thread TSan probe does not compile against the working tree", replay={"compiler": (tsan_out or "")[-3000:]}))
+    else:
+        rounds = 150 if tier == "quick" else 1500
+        env = dict(os.environ, TSAN_OPTIONS="exitcode=66:halt_on_error=1:second_deadlock_stack=1")
+        try:
+            p = subprocess.run([tsan_bin, str(rounds)], capture_output=True, text=True, timeout=300, env=env)
+            rc, err = p.returncode, p.stderr
+        except subprocess.TimeoutExpired:
+            rc, err = -1, "timeout"
+        res.extra["tsan_probe"] = {"rounds": rounds, "rc": rc}
+        if rc != 0:
+            rep = err if len(err) < 3000 else err[:3000]
+            res.failures.append(Failure("violation",
+                                        "tulz::Thread, ThreadSanitizer probe (poll isFinished()/isRunning(), then read the callable's output, %d rounds): %s"
+                                        % (rounds, lib.err_summary(err)),
+                                        signature="thread_tsan:%s" % lib.err_summary(err)[:80],
+                                        replay={"component": "thread", "program": "harness/thread/thread_tsan.cpp", "rounds": rounds, "report": rep}))
     cfgs = configs()
     all_runs = []       # (build, run)
     # 1. corpus
